@@ -6,8 +6,10 @@
  * barrier, in a fresh process per attempt (the lazily initialised statics of
  * the library are pristine in every attempt: the process that forks never
  * calls into libarchive).  Each workload yields a digest of everything the
- * caller can observe: statuses, entry metadata incl. dev/ino and xattr values,
- * data; for writers the archive bytes.
+ * caller can observe: statuses, entry metadata incl. dev/ino, times, flags, sparse
+ * map and xattr values, data, and after every header and every body what the handle
+ * reports about itself (format code and name, filter codes and names, byte and file
+ * counters); for writers also the archive bytes.
  *
  * ops:
  *   wl rd <path>                         read an archive file (all formats/filters) -> "ok"
@@ -63,10 +65,29 @@ static void dg_entry(struct dg *d, struct archive_entry *e, int with_ino)
 	dg_i(d, archive_entry_nlink(e)); dg_i(d, archive_entry_rdev(e));
 	if (with_ino) { dg_i(d, archive_entry_dev_is_set(e) ? (long long)archive_entry_dev(e) : -1);
 		dg_i(d, archive_entry_ino_is_set(e) ? (long long)archive_entry_ino64(e) : -1); }
-	dg_i(d, archive_entry_sparse_count(e));
+	dg_i(d, archive_entry_atime_is_set(e) ? archive_entry_atime(e) : -1);
+	dg_i(d, archive_entry_ctime_is_set(e) ? archive_entry_ctime(e) : -1);
+	dg_i(d, archive_entry_birthtime_is_set(e) ? archive_entry_birthtime(e) : -1);
+	dg_s(d, archive_entry_fflags_text(e));
+	dg_i(d, archive_entry_is_data_encrypted(e)); dg_i(d, archive_entry_is_metadata_encrypted(e));
+	dg_i(d, archive_entry_acl_count(e, ARCHIVE_ENTRY_ACL_TYPE_ACCESS | ARCHIVE_ENTRY_ACL_TYPE_DEFAULT | ARCHIVE_ENTRY_ACL_TYPE_NFS4));
+	int ns = archive_entry_sparse_reset(e); dg_i(d, ns);
+	{ la_int64_t so, sl; while (archive_entry_sparse_next(e, &so, &sl) == ARCHIVE_OK) { dg_i(d, so); dg_i(d, sl); } }
 	int nx = archive_entry_xattr_reset(e); dg_i(d, nx);
 	const char *xn; const void *xv; size_t xl;
 	while (archive_entry_xattr_next(e, &xn, &xv, &xl) == ARCHIVE_OK) { dg_s(d, xn); dg_b(d, xv, xl); }
+}
+
+/* Everything the API reports about the handle itself (not the entry): format code and name (per-entry
+ * for lha/zip/rar/...: "lha -lh5-", "ZIP 2.0 (deflation)"), the filter stack by code and name, counters. */
+static void dg_handle(struct dg *d, struct archive *a, int reader)
+{
+	dg_i(d, archive_format(a)); dg_s(d, archive_format_name(a));
+	int nf = archive_filter_count(a); dg_i(d, nf);
+	for (int i = 0; i < nf && i < 32; i++) { dg_i(d, archive_filter_code(a, i)); dg_s(d, archive_filter_name(a, i)); dg_i(d, archive_filter_bytes(a, i)); }
+	dg_i(d, archive_filter_bytes(a, -1));
+	dg_i(d, archive_file_count(a));
+	if (reader) { dg_i(d, archive_read_header_position(a)); dg_i(d, archive_read_has_encrypted_entries(a)); }
 }
 
 /* ---- workloads ---- */
@@ -86,15 +107,17 @@ static uint64_t wl_read(struct wl *w)
 			dg_s(&d, vh_st(r));
 			if (r != ARCHIVE_OK && r != ARCHIVE_WARN) break;
 			dg_entry(&d, e, 1);
+			dg_handle(&d, a, 1);
 			const void *b; size_t l; int64_t off; long long total = 0; int rr;
 			while ((rr = archive_read_data_block(a, &b, &l, &off)) == ARCHIVE_OK || rr == ARCHIVE_WARN) {
 				dg_i(&d, off); dg_b(&d, b, l); total += (long long)l;
 				if (total > (64 << 20)) break;
 			}
 			dg_s(&d, vh_st(rr));
+			dg_handle(&d, a, 1);      /* again: nothing was done on this handle that could change its format */
 			if (rr == ARCHIVE_FATAL) break;
 		}
-		dg_i(&d, archive_format(a)); dg_i(&d, archive_filter_count(a));
+		dg_handle(&d, a, 1);
 	}
 	dg_s(&d, vh_st(archive_read_free(a)));
 	return d.h;
@@ -143,6 +166,7 @@ static uint64_t wl_write(struct wl *w)
 	archive_write_set_bytes_per_block(a, 512);
 	int r = archive_write_open(a, &m, NULL, mem_write, NULL);
 	dg_s(&d, vh_st(r));
+	dg_handle(&d, a, 0);
 	uint64_t rng = (uint64_t)w->seed * 2654435761ULL + 88172645463325252ULL;
 	unsigned char *body = malloc(5000);
 	for (long i = 0; r != ARCHIVE_FATAL && i < w->n; i++) {
@@ -150,10 +174,12 @@ static uint64_t wl_write(struct wl *w)
 		r = archive_write_header(a, e);
 		dg_s(&d, vh_st(r));
 		if (r != ARCHIVE_FATAL && r != ARCHIVE_FAILED && bl) { la_ssize_t k = archive_write_data(a, body, bl); dg_i(&d, (long long)k); }
+		dg_handle(&d, a, 0);
 		archive_entry_free(e);
 	}
 	free(body);
 	dg_s(&d, vh_st(archive_write_close(a)));
+	dg_handle(&d, a, 0);
 	dg_s(&d, vh_st(archive_write_free(a)));
 	dg_b(&d, m.p ? m.p : (unsigned char *)"", m.n);
 	free(m.p);
